@@ -124,6 +124,9 @@ func inferSpec(fd *ast.FuncDecl, file string, caller *FuncSpec) (FuncSpec, bool)
 			continue
 		}
 		lt := leanTypeOf(f.Type)
+		if lt == "" {
+			lt = caller.AutoTypes[ts] // (C03) the caller's spec names the Lean twin of this Go type
+		}
 		if lt == "" || len(f.Names) == 0 {
 			return sp, false
 		}
@@ -154,6 +157,9 @@ func inferSpec(fd *ast.FuncDecl, file string, caller *FuncSpec) (FuncSpec, bool)
 		sp.Ret, sp.RetType = RetValErr, leanTypeOf(res[0])
 	default:
 		return sp, false
+	}
+	if sp.Ret != RetErr && sp.RetType == "" {
+		sp.RetType = caller.AutoTypes[exprString(res[0])]
 	}
 	if sp.Ret != RetErr && sp.RetType == "" {
 		return sp, false
